@@ -106,6 +106,57 @@ theorem backup_fresh {γ} (d : Dir γ) (f : Name) (r : Bool) :
         simp only [↓reduceIte]
         rw [get_put_ne _ _ _ _ hmn, get_del_ne d f m hmf]
 
+/-- **`create_backup` takes the first free number, whatever the numbers already used**: the
+backup is called `base_<j+1>ext` where every smaller number is taken and this one is not —
+also when earlier backups were removed or files with such names were put there by the user
+(the numbers in use need not be `1..n`). -/
+theorem backup_first_free {γ} (d : Dir γ) (f : Name) (r : Bool) (d' : Dir γ) (n : Name)
+    (h : createBackup d f r = some (d', n)) :
+    ∃ j, n = backupCandidate (splitext f).1 (splitext f).2 j ∧ n ∉ names d ∧
+      ∀ i, i < j → backupCandidate (splitext f).1 (splitext f).2 i ∈ names d := by
+  rcases createBackup_spec d f r with ⟨_, hnone⟩ | ⟨c, j, _, hex, hall, hsome⟩
+  · rw [hnone] at h; cases h
+  · rw [hsome] at h
+    simp only [Option.some.injEq, Prod.mk.injEq] at h
+    refine ⟨j, h.2.symm, ?_, fun i hi => (existsB_iff d _).mp (hall i hi)⟩
+    rw [← h.2]
+    intro hh
+    have := (existsB_iff d _).mpr hh
+    rw [hex] at this; cases this
+
+/-! ## recycling: which saved results belong to a model -/
+
+/-- **`files_of_type` lists exactly `model.ext` and `model~….ext`** among the files of the
+directory. -/
+theorem files_of_type_exact (ns : List Name) (model ext n : Name) :
+    n ∈ ofType ns model ext ↔
+      n ∈ ns ∧ (n = model ++ '.' :: ext ∨ ∃ mid, n = model ++ '~' :: (mid ++ '.' :: ext)) := by
+  rw [mem_ofType, ofTypeB_iff]
+
+/-- **Every saved output of the model is found**: each name of the sequence
+`name.ext, name~00.ext, …` that exists is listed. -/
+theorem files_of_type_lists_own (ns : List Name) (model ext : Name) (j : Nat)
+    (h : candidate model ext j ∈ ns) : candidate model ext j ∈ ofType ns model ext :=
+  (mem_ofType ns model ext _).mpr ⟨h, ofTypeB_own model ext j⟩
+
+/-- **The saved outputs of another model are never taken for those of this one**: no file
+`model'.ext`, `model'~NN.ext` is listed for `model`, unless the names are equal or one is the
+other followed by `~…` (in particular a model whose name merely *starts with* the name of this
+one, `logit_income` for `logit`, or `<model>_validation` written by `validate`, is ignored). -/
+theorem files_of_type_ignores_other_models (ns : List Name) (model model' ext : Name) (j : Nat)
+    (hne : model' ≠ model) (h1 : ∀ r, model' ≠ model ++ '~' :: r) (h2 : ∀ r, model ≠ model' ++ '~' :: r) :
+    candidate model' ext j ∉ ofType ns model ext := by
+  intro h
+  rcases ofTypeB_other model model' ext j ((mem_ofType ns model ext _).mp h).2 with h | ⟨r, h⟩ | ⟨r, h⟩
+  · exact hne h
+  · exact h1 r h
+  · exact h2 r h
+
+/-- the exception is real: the second output of a model called `m` and the first one of a model
+called `m~00` have the same name -/
+theorem files_of_type_tilde_overlap :
+    candidate "m".toList "pickle".toList 1 = candidate "m~00".toList "pickle".toList 0 := by decide
+
 /-- The choice of the pickle file by `estimate(recycle=True)` as coded today (largest name
 in string order) is **not** the most recent file once more than 101 files exist:
 `m~100.pickle` sorts before `m~99.pickle`.  (Known finding; `recycleChoice` is the
@@ -297,6 +348,21 @@ example : (run [("m.html".toList, 0)]
      .backup "m.html".toList true, .write "m".toList "tex".toList 3]).2
     = [some "m~00.html".toList, none, some "m.html".toList, some "m_1.html".toList,
        some "m.tex".toList] := by decide
+
+/-- backups with gaps: `_1` was removed, `_2`, `_3` are there → `_1` again, then `_4` -/
+example : (run [("e.txt".toList, 9), ("e_2.txt".toList, 2), ("e_3.txt".toList, 3)]
+    [.backup "e.txt".toList false, .backup "e.txt".toList true, .create "e.txt".toList 7,
+     .backup "e.txt".toList false]).2
+    = [some "e_1.txt".toList, some "e_4.txt".toList, none, some "e_5.txt".toList] := by decide
+
+/-- two models in one directory, the name of one starting with the name of the other -/
+example : ofType ["logit.pickle".toList, "logit_income.pickle".toList, "logit~00.pickle".toList,
+      "logit_validation.pickle".toList, "logit.html".toList, "xlogit.pickle".toList,
+      "logit~00.pickle.bak".toList, "logit.pickle~".toList]
+    "logit".toList "pickle".toList = ["logit.pickle".toList, "logit~00.pickle".toList] := by decide
+
+example : ∀ r, "logit_income".toList ≠ "logit".toList ++ '~' :: r := by
+  intro r h; simp at h
 
 example : splitext "..a.b.c".toList = ("..a.b".toList, ".c".toList) ∧
     splitext "...x".toList = ("...x".toList, []) := by decide
